@@ -5,12 +5,12 @@ from props import cfgstate_common as C
 
 ID = "C07"
 COQ_DIRS = ["Common", "CfgState", "C07"]
-COQ_TARGETS = ["C07/Props.vo", "CfgState/Run.vo"]
+COQ_TARGETS = ["C07/Props.vo", "C07/Worker.vo", "CfgState/Run.vo"]
 PROPS_MODULES = ["C07.Props"]
 RUN_MODULE = "CfgState.Run"
 RUN_FN = "run_case"
 HARNESS_BIN = "c07"
-HARNESS_BINS = ["c07"]
+HARNESS_BINS = ["c07", "c07w"]
 SHRINK_KEEP = C.SHRINK_KEEP
 RULE = ("cases: command histories over small colliding pools (3 clusters, 4 addresses, 3 backend ids, 9 PEMs incl. "
         "unparsable / PEM-ok-X509-bad / same DER in two framings, 8 health checks incl. invalid) with every mutating verb; "
@@ -18,7 +18,7 @@ RULE = ("cases: command histories over small colliding pools (3 clusters, 4 addr
         "missing listener); c*: certificate verbs against occupied / empty / missing buckets. Non-trivial and distinct: at "
         "least one command rejected in a non-empty state AND at least one accepted mutation; distinct by op text.")
 ASSUMPTIONS = C.COMMON_ASSUMPTIONS + [
-    "worker side (lib/src/server.rs notify_proxys: config_state.dispatch result ignored, then the proxy action) is not in the model; the claim is for ConfigState (main process and the worker's own copy)",
+    "worker side: lib/src/server.rs notify_proxys is modelled in coq/C07/Worker.v as config_state.dispatch (result ignored) followed by a proxy action that is a parameter; what the real proxies do is tied only for the HTTP/HTTPS listener patch (HttpListener/HttpsListener::update_config, in-process, harness/src/bin/c07w.rs)",
 ]
 TRUSTED = C.COMMON_TRUSTED
 
@@ -100,6 +100,55 @@ def gen_cases(rng, tier):
     return out
 
 
+def worker_cases():
+    """every combination of (good simple fields) x (answer template good/bad) x (HSTS block absent/good/bad)"""
+    import os
+    out = []
+    d = os.path.join(vlib.ROOT, "corpus", ID, "worker")
+    if os.path.isdir(d):
+        for f in sorted(os.listdir(d)):
+            if f.endswith(".case"):
+                out += vlib.parse_cases(open(os.path.join(d, f)).read())
+    for ct in (5, 9):
+        for st in (0, 1):
+            for ans in (0, 1, 2):
+                out.append(Case("wh_%d_%d_%d" % (ct, st, ans), [["http_patch", ct, st, ans]]))
+                for hsts in (0, 1, 2):
+                    out.append(Case("ws_%d_%d_%d_%d" % (ct, st, ans, hsts), [["https_patch", ct, st, ans, hsts]]))
+    return out
+
+
+def extra_stage(tier, rng, work):
+    """worker side: the live HTTP / HTTPS listener after a patch its own update_config answers with an error"""
+    import os
+    cases = worker_cases()
+    outs, problems = vlib.run_harness("c07w", cases, os.path.join(work, "worker"), "release", shards=1)
+    viols, rejected, accepted = [], 0, 0
+    for c in cases:
+        o = outs.get(c.id)
+        if o is None:
+            problems.append("c07w: no output for " + c.id)
+            continue
+        if o["panic"] is not None:
+            viols.append((c, "panic", o["panic"]))
+        if any(n.startswith("invalid-case") for n in o["notes"]):
+            problems.append("c07w: " + "; ".join(o["notes"]))
+        for ob in o["obs"]:
+            if ob and ob[0] == "err":
+                rejected += 1
+            elif ob and ob[0] == "ok":
+                accepted += 1
+                # an accepted patch must have been applied (connect_timeout is in every patch)
+                if ob[1] != c.ops[0][1]:
+                    viols.append((c, "worker-patch-not-applied", "update_config answered ok but connect_timeout is %s" % ob[1]))
+        for (vc, vt) in o["viol"]:
+            viols.append((c, vc, vt))
+    if rejected < 10 or accepted < 10:
+        problems.append("c07w: only %d rejected / %d accepted listener patches exercised" % (rejected, accepted))
+    return dict(failures=problems, viols=viols,
+                coverage=dict(worker_listener_patches=len(cases), worker_patches_rejected=rejected, worker_patches_accepted=accepted))
+
+
 def corpus_cases():
     return C.corpus_cases(ID)
 
@@ -126,7 +175,12 @@ LEVEL_TEXT = ("Machine-checked proof (Coq 8.16 + std++) over an executable model
               "every mutation => Err is a no-op) instantiated on the generated lists by computation. Tied to the code by "
               "the translator and by a differential run of the real ConfigState against the extracted model, with the "
               "property's own oracle (full-state equality on Err, frame check on Ok) evaluated on the implementation.")
-LEVEL_NOTE = ("Inside the model: all 28 state-changing verbs of dispatch (clusters, health checks, 4 listener kinds incl. "
+LEVEL_NOTE = ("Worker side: partial. Proved: the proxy is invoked whether or not the worker's ConfigState accepted; no trace when "
+              "both reject and the proxy is atomic (checked on the real HTTP/HTTPS listeners: update_config used to apply the "
+              "simple fields before the template / HSTS / ALPN checks could fail, fixed); kept visible as worker_view_drift + "
+              "open finding: a patch the ConfigState accepts and the proxy refuses (answer template that does not compile) is "
+              "answered with a failure while the worker's view and the main state keep it. Other proxy actions (frontends, "
+              "backends, certificates on the live proxies) are not tied. Inside the model: all 28 state-changing verbs of dispatch (clusters, health checks, 4 listener kinds incl. "
               "activate/deactivate/remove and the 4 patch verbs, http/https/tcp/udp frontends, backends, add/remove/replace "
               "certificate), pass-through verbs, undispatchable and empty requests. Outside: request_counts; the worker's "
               "live proxies (lib/src/server.rs applies config_state.dispatch, ignores its result, then notifies the proxy: "
